@@ -11,8 +11,8 @@ EXPLANATION = ('llsym runs the real mj_makeRawData (through the real mju_malloc 
                '"returns NULL" and "returns a fresh block": one symbolic run therefore covers every fault schedule (no fault, each single fault, every combination), not a sample of them. mju_error ends a path the way an '
                'unwinding error handler (longjmp / C++ exception, as the Python bindings install) does. On every path the obligations are: no load/store through NULL or outside a block (generated on each access), no double free, '
                'no free of a pointer that was not allocated, the failure is reported through mju_error, and no block is left allocated and unreachable when the call ends in an error.')
-BOUNDS = {'quick': {'functions': 'mj_makeRawData with *dest == NULL (allocating) and with an existing mjData (re-using); mj_makeModel allocating, every size 1', 'model': 'every size 1, narena 1024', 'faults': 'all schedules of the <= 3 allocator calls'},
-          'thorough': {'same': 'plus a model with every size 2'}}
+BOUNDS = {'quick': {'functions': 'mj_makeRawData with *dest == NULL (allocating) and with an existing mjData (re-using); mj_makeModel allocating, every size 1', 'model': 'every size 1 (mj_makeRawData also with every size 2), narena 1024', 'faults': 'all schedules of the <= 3 allocator calls'},
+          'thorough': {'same': True}}
 OUTSIDE = ('the C++ parser / compiler / mjSpec layers (std::bad_alloc paths; not lowered); mj_copyModel; mj_makeModel re-using an existing model; mj_copyDataVisual and _resetData plugin buffers (need registered plugins); '
            'simulation-time arena allocation (C19/C20); multi-threaded allocation.')
 ASSUMPTIONS = ['units *_returning: the handler returns from the allocator\'s own report (outside the documented handler contract): only in-call safety (no NULL dereference, no double free, no leak) is claimed there', 'mj_setPtrData (pointer carving inside the already allocated buffer, no allocation) is skipped', 'mju_error / mju_message(ERROR) do not return (default handler exits, the bindings\' handler unwinds)', 'a block returned by the allocator is exactly as large as requested', 'no plugins (nplugin = 0)']
@@ -272,5 +272,5 @@ def units(tier):
     u = [('makeRawData_alloc_n1', 'unit_rawdata', {'reuse': False, 'size': 1}), ('makeRawData_reuse_n1', 'unit_rawdata', {'reuse': True, 'size': 1}),
          ('makeRawData_alloc_n1_returning', 'unit_rawdata', {'reuse': False, 'size': 1, 'handler': 'return'}), ('makeRawData_reuse_n1_returning', 'unit_rawdata', {'reuse': True, 'size': 1, 'handler': 'return'})]
     u.append(('makeModel_alloc_n1', 'unit_makemodel', {'size': 1}))
-    if tier != 'quick': u += [('makeRawData_alloc_n2', 'unit_rawdata', {'reuse': False, 'size': 2}), ('makeRawData_reuse_n2', 'unit_rawdata', {'reuse': True, 'size': 2})]
+    u += [('makeRawData_alloc_n2', 'unit_rawdata', {'reuse': False, 'size': 2}), ('makeRawData_reuse_n2', 'unit_rawdata', {'reuse': True, 'size': 2})]
     return u
